@@ -30,6 +30,7 @@ def run(ctx, rep):
     rep.assumptions = ["std/tokio socket constructors report failure through Result"]
     isi_provenance(ctx, rep)
     setters(ctx, rep)
+    field_writers(ctx, rep)
     connect(ctx, rep)
     inventory(ctx, rep)
 
@@ -205,6 +206,57 @@ def setters(ctx, rep):
     rep.check("R18.3", "flag-setters", len([1 for i in rep.instances if i["rule"] == "R18.3" and "isi_flag_" in i["key"]]) == len(flags),
               "one setter per IsiFlags constant expected (%d constants)" % len(flags), None, nontrivial=False)
     rep.floor("R18.3", 15)
+
+
+# which builder fields a chaining method may change: its own field, except for the reviewed protocol selectors / shorthands
+WRITES = {"tcp": {"proto", "remote"}, "udp": {"proto", "remote", "udp_local_address"}, "relay": {"proto"},
+          "compressed": {"mode"}, "uncompressed": {"mode"}}
+NOT_SETTERS = {"default", "new", "isi", "connect_blocking", "connect_async", "_connect_relay"}
+
+
+def field_writers(ctx, rep):
+    """R18.5 who-may-write: every chaining method of Builder changes only its own option (the protocol selectors: proto, remote
+    and, for udp, the local address); so an option that was configured - size mode, flags, UDP port, ... - is still the
+    configured one when isi()/connect_* read it, whatever other methods were called before or after."""
+    n = 0
+    for name in sorted(ctx.mir.bodies):
+        m = re.match(r"^insim::builder::Builder::(\w+)$", name)
+        if not m or m.group(1) in NOT_SETTERS:
+            continue
+        meth = m.group(1)
+        b = ctx.mir.body(name)
+        if b.argc < 1 or not str(b.locals[1].get("ty", "")).endswith("builder::Builder"):
+            continue          # not a by-value chaining method
+        rep.fn(name)
+        allowed = WRITES.get(meth, {meth if not meth.startswith("isi_flag_") else "isi_flags"})
+        wrote = set()
+        for bl in b.blocks:
+            for st in bl["stmts"]:
+                if st["k"] == "assign" and st["place"]["l"] == 1 and st["place"]["p"]:
+                    p0 = st["place"]["p"][0]
+                    if isinstance(p0, dict) and p0.get("name"):
+                        wrote.add(p0["name"])
+                if st["k"] == "assign" and st["place"]["l"] == 1 and not st["place"]["p"]:
+                    wrote.add("*")
+        for bb, t in b.calls():
+            d = callee(t)[0] or ""
+            m2 = re.match(r"^insim::builder::Builder::(\w+)$", d)
+            if m2 and t["args"] and strip_refs(b.origin(t["args"][0])) == ("arg", 1):
+                wrote |= WRITES.get(m2.group(1), {m2.group(1)})
+                continue
+            for ai, a in enumerate(t["args"]):
+                if t["argtys"][ai].startswith("&mut"):
+                    o = strip_refs(b.origin(a))
+                    if o[0] == "field" and strip_refs(o[1]) == ("arg", 1):
+                        wrote.add(o[3])
+                    elif o == ("arg", 1):
+                        wrote.add("*")
+        extra = sorted(wrote - allowed)
+        n += 1
+        rep.check("R18.5", meth, not extra,
+                  "Builder::%s also changes %s: options configured elsewhere must survive it, otherwise the handshake no longer carries what was configured (allowed: %s)" % (meth, extra, sorted(allowed)),
+                  b.loc(), sample={"method": meth, "writes": sorted(wrote)})
+    rep.floor("R18.5", 28)
 
 
 CONNECT = [("blocking", "insim::builder::Builder::connect_blocking", r"blocking_impl::framed::Framed"),
